@@ -20,16 +20,34 @@ MUTATING = ('H5Fcreate', 'H5Dcreate2', 'H5Dset_extent', 'H5Dwrite', 'H5Awrite', 
 
 class Cfg:
     def __init__(self, n, d, sc, fc, cont, chunk, calls, tsize=2, cplx=0, nsub=1, close=True, api='blocks', fault=None,
-                 start_lo=None, start_hi=None, fs_init=None, name=None, stale_tmp=False, max_files=3, window_style='abstract', window_regular=None, dir_init=None, max_chunk=10**6, getters=True):
+                 start_lo=None, start_hi=None, fs_init=None, name=None, stale_tmp=False, max_files=3, window_style='abstract', window_regular=None, dir_init=None, max_chunk=10**6, getters=True, pre=None):
         self.n, self.d, self.sc, self.fc, self.cont, self.chunk = n, d, sc, fc, cont, chunk
         self.calls, self.tsize, self.cplx, self.nsub, self.close, self.api, self.fault = calls, tsize, cplx, nsub, close, api, fault
         self.start_lo = start_lo if start_lo is not None else -((-315532800 * n) // d)
         self.start_hi = start_hi if start_hi is not None else (4102444800 * n) // d
-        self.stale_tmp = stale_tmp; self.fs_init = fs_init; self.dir_init = dir_init; self.max_chunk = max_chunk; self.getters = getters; self.max_files = max_files; self.window_style = window_style; self.window_regular = window_regular
+        self.pre = pre; self.stale_tmp = stale_tmp; self.fs_init = fs_init; self.dir_init = dir_init; self.max_chunk = max_chunk; self.getters = getters; self.max_files = max_files; self.window_style = window_style; self.window_regular = window_regular
         self.name = name or '%d/%dHz,%ds,%dms,%s' % (n, d, sc, fc, 'gapped' if not cont else ('cont-chunked' if chunk else 'cont'))
 
     def samples_per_file(self):
         return (self.fc * self.n) // (1000 * self.d)
+
+
+def abstract_window(ex, k, i):
+    """rate-independent abstraction of one file window containing absolute sample k (partition lemma, proved from the spec in C04):
+    c1 <= k < c2; two windows of a path are identical (same file id F, same subdir id DIR) or disjoint and ordered like F and DIR"""
+    FM, DIR, c1, c2 = (z3.Int('%s!w%d' % (nm, i)) for nm in ('F', 'DIR', 'c1', 'c2'))
+    ex.assume(z3.And(c1 >= 0, c1 <= k, k < c2, c2 < 2**62, FM >= 0, FM < 2**62, DIR >= 0, DIR < 2**62))
+    reg = ex.user.get('window_regular')          # optional refinement used only to obtain replayable counterexamples
+    if reg:
+        m_, q_ = reg['m'], z3.Int('q!w%d' % i)
+        ex.assume(z3.And(q_ >= 0, c1 == q_ * m_, c2 == c1 + m_, FM == q_ * reg['fc'],
+                         DIR == ((q_ * reg['fc']) / 1000 / reg['sc']) * reg['sc']))
+    for w in ex.user['windows']:
+        same = z3.And(c1 == w['c1'], c2 == w['c2'], FM == w['FM'], DIR == w['DIR'])
+        before = z3.And(c2 <= w['c1'], FM < w['FM'], DIR <= w['DIR'])
+        after = z3.And(w['c2'] <= c1, w['FM'] < FM, w['DIR'] <= DIR)
+        ex.assume(z3.Or(same, before, after))
+    return FM, DIR, c1, c2
 
 
 def subdir_file_summary(ex, obj, gs, subdir, basename, pleft, pmax):
@@ -49,18 +67,7 @@ def subdir_file_summary(ex, obj, gs, subdir, basename, pleft, pmax):
     if style == 'abstract':
         # rate-independent abstraction: the file windows tile the sample axis (partition lemma, proved from the spec in C04):
         #   c1 <= k < c2;  two windows are identical (same file id F, same subdir id DIR) or disjoint and ordered like F and DIR
-        FM, DIR, c1, c2 = (z3.Int('%s!w%d' % (nm, i)) for nm in ('F', 'DIR', 'c1', 'c2'))
-        ex.assume(z3.And(c1 >= 0, c1 <= k, k < c2, c2 < 2**62, FM >= 0, FM < 2**62, DIR >= 0, DIR < 2**62))
-        reg = ex.user.get('window_regular')          # optional refinement used only to obtain replayable counterexamples
-        if reg:
-            m_, q_ = reg['m'], z3.Int('q!w%d' % i)
-            ex.assume(z3.And(q_ >= 0, c1 == q_ * m_, c2 == c1 + m_, FM == q_ * reg['fc'],
-                             DIR == ((q_ * reg['fc']) / 1000 / reg['sc']) * reg['sc']))
-        for w in ex.user['windows']:
-            same = z3.And(c1 == w['c1'], c2 == w['c2'], FM == w['FM'], DIR == w['DIR'])
-            before = z3.And(c2 <= w['c1'], FM < w['FM'], DIR <= w['DIR'])
-            after = z3.And(w['c2'] <= c1, w['FM'] < FM, w['DIR'] <= DIR)
-            ex.assume(z3.Or(same, before, after))
+        FM, DIR, c1, c2 = abstract_window(ex, k, i)
         FS, FMS = FM, z3.IntVal(0)
     elif style == 'div' and all(isinstance(x, int) for x in (n, d, sc, fc)):
         # computed form (z3 div/mod by constants)
@@ -113,6 +120,61 @@ def h5dwrite_snapshot(stubs):
     return s
 
 
+def install_open_state(ex, o, cfg):
+    """Inductive pre-state (W2): instead of a fresh writer, ANY state in which a file is open and the representation invariant Inv_W
+    holds.  Inv_W (for a healthy writer on a channel only this writer has written to):
+      - hdf5_file / dataset / index_dataset / dataspace are open handles of one file, created under tmp.<name of window W0>;
+        sub_directory / basename name W0; the tmp name exists, no final name of W0 or of a later window exists
+      - the file's index has N0 >= 1 rows (next_index_avail == N0), well formed (C06), first row (s0, 0) with s0 >= c1(W0), last row
+        (sl, ol) with ol < rows stored; only the first and the last row are represented (rows in between do not influence where later
+        samples land nor the pairwise well-formedness of later rows)
+      - needs_chunking: rows stored == dataset_index == extent >= 1; otherwise (continuous): extent == capacity of W0, exactly one index
+        row (c1(W0), 0), dataset_index == cursor - c1(W0)
+      - cursor: global_index + start == sl + (dataset_index - ol) <= c2(W0)  (one past the last stored sample)
+      - present_seq == sequence number stored in the open file; chunk_size already chosen; has_failure == 0
+    Every accepted call of every harness configuration is shown to re-establish Inv_W (obligation 'representation invariant'), and the
+    fresh state leads into it, so one call from this state covers call number k of a history of any length."""
+    E = envstubs.env(ex)
+    start = ex.user['start']
+    gi, di, N0, s0, sl, ol, seq0, csz = (z3.Int(nm + '!pre') for nm in ('gi', 'di', 'N0', 's0', 'sl', 'ol', 'seq', 'chunk'))
+    ex.user.setdefault('windows', [])
+    FM, DIR, c1, c2 = abstract_window(ex, gi + start - 1, 0)
+    FS, FMS = FM, z3.IntVal(0)
+    w0 = dict(k=gi + start - 1, FM=FM, DIR=DIR, c1=c1, c2=c2, FS=FS, FMS=FMS)
+    ex.user['windows'].append(w0)
+    cap = c2 - c1
+    ex.assume(z3.And(gi >= 1, gi < 2**40, di >= 1, di <= cap, N0 >= 1, N0 < 2**31, seq0 >= 0, seq0 < 2**31 - 8, csz >= 1, csz < 2**40,
+                     s0 >= c1, s0 >= start, ol >= 0, ol < di, sl + (di - ol) == gi + start, gi + start <= c2,
+                     z3.If(ol == 0, z3.And(sl == s0, N0 == 1), z3.And(sl > s0, ol <= sl - s0, N0 >= 2))))
+    if ex.user.get('window_regular'):
+        # realisation of a counterexample on the real build: the pre-state must be reachable by ONE concrete prefix call on a fresh channel
+        ex.assume(z3.And(seq0 == 0, N0 == z3.If(ol == 0, 1, 2), s0 - start < 2**31, gi < 2**31))
+    if cfg.cont and not cfg.chunk:
+        ex.assume(z3.And(N0 == 1, s0 == c1, ol == 0))
+        extent = cap
+    else:
+        extent = di
+    from .wobj import CHDIR
+    tmpn, finn = expected_names(ex, cfg, w0)
+    fid = E.new('file', name=tmpn, flags=H5F_ACC_EXCL, open=True)
+    sp = E.new('space', dims0=extent, dims1=cfg.nsub, max0=cap, sel=None, open=True)
+    ty = 7004 if cfg.cplx else 7001
+    did = E.new('dataset', name=SymStr(['rf_data']), file=fid, space=sp, type=ty, dcpl=7002, open=True, extent=extent, max0=cap, ncol=cfg.nsub)
+    idid = E.new('dataset', name=SymStr(['rf_data_index']), file=fid, space=None, type=None, dcpl=7003, open=True, extent=N0, max0=None, ncol=2)
+    fsp = E.new('space', of=did, sel=None, open=True); msp = E.new('space', dims0=1, dims1=cfg.nsub, max0=None, sel=None, open=True)
+    E.exists[envstubs.strid(tmpn)] = True; E.exists[envstubs.strid(finn)] = False
+    E.exists[('stat', envstubs.strid(SymStr([CHDIR + '/', ('d', DIR, 'cal')]).norm()))] = True
+    o.set_str('sub_directory', SymStr([('d', DIR, 'cal')]))
+    ex.mem[o.ptr.region]['cells'][ex.key(o.ptr.path + (F()['basename'],))] = SymStr(['tmp.rf@', ('d', FS, 'u'), '.', ('d', FMS, 'u03'), '.h5']).norm()
+    for k_, v_ in dict(global_index=gi, dataset_index=di, dataset_avail=ex.fresh('avail'), block_index=0, next_index_avail=N0, present_seq=seq0,
+                       hdf5_file=fid, dataset=did, index_dataset=idid, dataspace=sp, filespace=fsp, memspace=msp, has_failure=0).items():
+        o.set(k_, v_)
+    if cfg.chunk: o.set('chunk_size', csz)
+    ex.events.append(('pre_state', dict(window=w0, name=tmpn, fid=fid, did=did, idid=idid, extent=extent, cap=cap, type=ty,
+                                        rows=[(s0, z3.IntVal(0)), (sl, ol)], nrows=N0, seq=seq0)))
+    ex.user['pre_open'] = dict(gi=gi, di=di, N0=N0, s0=s0, sl=sl, ol=ol, seq0=seq0, window=w0)
+
+
 def make_driver(cfg):
     """returns (setup, driver).  ex.user['calls'] gets one record per call: dict(G,B,vlen,ret,ev0,ev1,pre,post)"""
 
@@ -131,6 +193,7 @@ def make_driver(cfg):
         o.fresh_open_state(cfg.n, cfg.d, cfg.sc, cfg.fc, start, cfg.cont, cfg.chunk, cfg.cplx, cfg.nsub,
                            max_chunk=cfg.max_chunk)
         ex.user['obj'] = o; ex.user['start'] = start; ex.user['calls'] = []
+        if cfg.pre == 'open': install_open_state(ex, o, cfg)
         return [o]
 
     def snapshot(o):
@@ -215,6 +278,16 @@ def build_files(ex):
         k = e[0]
         if k == 'subdir_file':
             win = ex.user['windows'][e[1]]
+        elif k == 'pre_state':
+            # the file that is open when the inductive step starts (see install_open_state): its earlier history is summarised by Inv_W
+            ps = e[1]
+            rec = dict(name=ps['name'], fid=ps['fid'], ev=idx, window=ps['window'], flags=H5F_ACC_EXCL, fault=False, writes=[], attrs={'sequence_num': ps['seq']},
+                       fclose_ev=None, rename_ev=None, final_name=None, dclose={}, removed=None, handles=[], is_props=False, pre=True)
+            rec['rf'] = dict(did=ps['did'], name=SymStr(['rf_data']), dims0=ps['extent'], max0=ps['cap'], extent=ps['extent'], type=ps['type'], dcpl=7002, ev=idx, rows=[], fault=False)
+            rec['index'] = dict(did=ps['idid'], name=SymStr(['rf_data_index']), dims0=ps['nrows'], max0=None, extent=ps['nrows'], type=None, dcpl=7003, ev=idx,
+                                rows=list(ps['rows']), fault=False, row_ev=[idx, idx], nrows=ps['nrows'], pre_rows=2)
+            files.append(rec); by_fid[ps['fid']] = rec; by_did[ps['did']] = (rec, rec['rf']); by_did[ps['idid']] = (rec, rec['index'])
+            win = ps['window']
         elif k == 'H5Fcreate':
             _, name, flags, fid, f = e
             rec = dict(name=name, fid=fid, ev=idx, window=win, flags=flags, fault=f, rf=None, writes=[], index=None, attrs={}, fclose_ev=None,
@@ -246,11 +319,15 @@ def build_files(ex):
                     off, cnt = 0, ds['dims0']
                 else:
                     off, cnt = sel[0], sel[1]
-                if not isinstance(cnt, int) or snap is None or not isinstance(off, int):
+                if not isinstance(cnt, int) or snap is None or (not isinstance(off, int) and 'nrows' not in ds):
                     problems.append(('index write with symbolic shape', idx)); continue
                 base = buf.path[-1] if buf.path else 0
                 rows = [(snap.get((base + 2 * r,)), snap.get((base + 2 * r + 1,))) for r in range(cnt)]
-                if len(ds['rows']) != off: problems.append(('index rows not appended at the end (offset %r, have %d)' % (off, len(ds['rows'])), idx))
+                if 'nrows' in ds:
+                    # file open since before the step: N0 rows (symbolic) + the rows appended on this path
+                    have = ds['nrows'] + (len(ds['rows']) - ds['pre_rows'])
+                    if not ex.valid(off == have): problems.append(('index rows not appended at the end (symbolic row count)', idx))
+                elif len(ds['rows']) != off: problems.append(('index rows not appended at the end (offset %r, have %d)' % (off, len(ds['rows'])), idx))
                 ds['rows'] += rows
                 ds.setdefault('row_ev', []).extend([idx] * cnt)
         elif k == 'H5Awrite':
@@ -312,12 +389,56 @@ ATTR_NAMES_FILE = ['sequence_num', 'H5Tget_class', 'H5Tget_size', 'H5Tget_order'
                    'digital_rf_version']
 
 
+INV_NAME = ('representation invariant Inv_W holds after an accepted call: the open handles, names, row cursor, index row count, sequence number and '
+            'sample cursor describe the last file written (base case and inductive step for histories of any length)')
+
+
+def inv_claim(ex, cfg, c, data_files, start):
+    post = c['post']
+    fl = [f for f in data_files if f['ev'] < c['ev1']]
+    if not fl or fl[-1]['rf'] is None or not fl[-1]['index'] or not fl[-1]['index']['rows'] or fl[-1]['window'] is None: return False
+    f = fl[-1]; w = f['window']; ix = f['index']; rows = ix['rows']
+    nrows = (ix['nrows'] + (len(rows) - ix['pre_rows'])) if 'nrows' in ix else len(rows)
+    sl, ol = rows[-1]
+    di, gi = post['dataset_index'], post['global_index']
+    tmpn, finn = expected_names(ex, cfg, w)
+    from .wobj import CHDIR
+    bn = SymStr(['tmp.rf@', ('d', w['FS'], 'u'), '.', ('d', w['FMS'], 'u03'), '.h5']).norm()
+    sd = SymStr([('d', w['DIR'], 'cal')]).norm()
+    def seq(a, b):
+        if a is None or b is None: return z3.BoolVal(False)
+        e = envstubs.str_eq(a.copy(), b.copy())
+        return e if not isinstance(e, bool) else z3.BoolVal(e)
+    def ideq(a, b):
+        if isinstance(a, int) and isinstance(b, int): return z3.BoolVal(a == b)
+        if isinstance(a, Ptr) or isinstance(b, Ptr): return z3.BoolVal(False)
+        return a == b
+    conj = [ideq(post['hdf5_file'], f['fid']), ideq(post['dataset'], f['rf']['did']), ideq(post['index_dataset'], ix['did']),
+            seq(post['basename'], bn), seq(post['subdir_str'], sd),
+            post['next_index_avail'] == nrows, ol < di, di >= 1, sl + (di - ol) == gi + start, gi + start <= w['c2'],
+            post['present_seq'] == f['attrs'].get('sequence_num', -1), post['has_failure'] == 0,
+            z3.BoolVal(isinstance(post['dataspace'], int) and post['dataspace'] != 0)]
+    ext = f['rf']['extent']; cap = w['c2'] - w['c1']
+    if cfg.cont and not cfg.chunk:
+        conj += [ext == cap, di == gi + start - w['c1']]
+    else:
+        conj += [ext == di, post['chunk_size'] >= 1]
+    ex_tmp = envstubs.env(ex).exists.get(envstubs.strid(f['name'].copy().norm()))
+    if not ex.user.get('closed'):
+        conj.append(z3.BoolVal(ex_tmp is True) if isinstance(ex_tmp, bool) or ex_tmp is None else ex_tmp)
+    return z3.And(*conj)
+
+
 class Agg:
     """worst verdict per named obligation over all paths of a configuration"""
     RANK = {'unsat': 0, 'unknown': 1, 'sat': 2}
 
     def __init__(self):
-        self.d = {}; self.count = {}
+        self.d = {}; self.count = {}; self.reach = {}
+
+    def reached(self, name):
+        """reachability witness (vacuity guard): some explored path exhibits the situation `name`"""
+        self.reach[name] = self.reach.get(name, 0) + 1
 
     def note(self, name, ok, model=None):
         v = 'unsat' if ok is True else ('sat' if ok is False else ok)
@@ -350,6 +471,8 @@ def path_model(ex, extra=None, prefer=False):
     if m is None: m = ex.model(extra)
     if m is None: return None
     out = dict(start=smt.mval(m, ex.user['start']), calls=[], windows=[])
+    if ex.user.get('pre_open'):
+        out['pre'] = {k_: smt.mval(m, v_) for k_, v_ in ex.user['pre_open'].items() if k_ != 'window'}
     for c in ex.user['calls']:
         out['calls'].append(dict(g=[smt.mval(m, x) for x in c['G']], b=[smt.mval(m, x) for x in c['B']], vlen=smt.mval(m, c['vlen']),
                                  ret=smt.mval(m, c['ret']) if c.get('ret') is not None else None))
@@ -449,6 +572,16 @@ def check_path(ex, cfg, status, ret, agg):
                                               envstubs.strid(SymStr([__import__('vlib.wobj', fromlist=['CHDIR']).CHDIR + '/', ('d', wlast['DIR'], 'cal'), '/']).norm()))))
             else:
                 agg.note('last file / last directory written name the file containing the most recently written sample', False, path_model(ex))
+    if data_files and data_files[0].get('pre'):
+        f0 = data_files[0]
+        if f0['writes']: agg.reached('step continues the file that was open before the call')
+        if f0['writes'] and len(f0['index']['rows']) > f0['index']['pre_rows']: agg.reached('step appends index rows to the file that was open before the call')
+        if f0['writes'] and len(data_files) > 1: agg.reached('step fills the open file and rolls over to a new one')
+        if not f0['writes'] and len(data_files) > 1: agg.reached('step leaves the open file untouched and starts a later file')
+        if f0['rename_ev'] is not None: agg.reached('the file that was open before the call is finalized (renamed)')
+    # I: the state after the last call satisfies the representation invariant Inv_W (base case / inductive step of W2)
+    if calls and ex.valid(calls[-1]['ret'] == 0):
+        check_claim(ex, agg, INV_NAME, inv_claim(ex, cfg, calls[-1], data_files, start))
     # E: every file: well-formed index, within its window (checked on the final state of the path)
     for f in data_files:
         win = f['window']; rows = f['index']['rows'] if f['index'] else []
@@ -458,18 +591,19 @@ def check_path(ex, cfg, status, ret, agg):
         wf = [z3.BoolVal(len(rows) >= 1)]
         if rows:
             wf += [rows[0][1] == 0, rows[0][0] >= win['c1']]
-            for (s0, o0), (s1, o1) in zip(rows, rows[1:]):
+            for ri, ((s0, o0), (s1, o1)) in enumerate(zip(rows, rows[1:])):
+                if f.get('pre') and ri == 0: continue        # first / last row of the index as it was before the step: well formed by Inv_W
                 wf += [s1 > s0, o1 > o0, o1 - o0 <= s1 - s0]
             sl, ol = rows[-1]
             wf += [ol < ext, sl + (ext - ol) <= win['c2'], ext <= win['c2'] - win['c1'], ext <= f['rf']['max0'],
                    f['rf']['max0'] == win['c2'] - win['c1']]
             if cfg.cont and not cfg.chunk:
-                wf += [z3.BoolVal(len(rows) == 1), rows[0][0] == win['c1'], ext == win['c2'] - win['c1']]
+                wf += [z3.BoolVal(len(rows) == (2 if f.get('pre') else 1)), rows[0][0] == win['c1'], ext == win['c2'] - win['c1']]
         check_claim(ex, agg, 'file index well formed: >=1 row, offset 0 first, strictly increasing, d(offset)<=d(sample), last offset inside the '
                              'stored rows, all samples inside the file window, rows <= window capacity', z3.And(*wf))
         # a file is created only by a call that writes at least one of its slots
         cre_call = [c for c in calls if c['ev0'] <= f['ev'] < c['ev1']]
-        agg.note('a data file exists only if the call that created it wrote at least one of its slots',
+        if not f.get('pre'): agg.note('a data file exists only if the call that created it wrote at least one of its slots',
                  bool(cre_call) and any(cre_call[0]['ev0'] <= w['ev'] < cre_call[0]['ev1'] for w in f['writes']), None)
         # naming + protocol
         tmpn, finn = expected_names(ex, cfg, win)
@@ -484,8 +618,9 @@ def check_path(ex, cfg, status, ret, agg):
         if acc:
             b = acc[-1][2]
             pr.append(z3.Not(b) if not isinstance(b, bool) else z3.BoolVal(not b))
-        check_claim(ex, agg, "data file is created exclusively (H5F_ACC_EXCL) under dir/<subdir>/tmp.<name of the window's file> after the final "
-                             'name was seen absent', z3.And(*pr))
+        if not f.get('pre'):
+            check_claim(ex, agg, "data file is created exclusively (H5F_ACC_EXCL) under dir/<subdir>/tmp.<name of the window's file> after the final "
+                                 'name was seen absent', z3.And(*pr))
         if ex.user.get('closed') or f is not data_files[-1]:
             okp = f['fclose_ev'] is not None and f['rename_ev'] is not None and f['fclose_ev'] < f['rename_ev']
             if okp:
@@ -503,6 +638,7 @@ def check_path(ex, cfg, status, ret, agg):
                 agg.note('a file is renamed tmp.X -> X only after its datasets and the file are closed, exactly once, to the name of its window, '
                          'and is never touched again', False, path_model(ex))
         # attributes
+        if f.get('pre'): continue
         names_ok = sorted(f['attrs']) == sorted(ATTR_NAMES_FILE) and not f.get('attr_type_mismatch')
         vals = []
         if names_ok:
@@ -518,8 +654,9 @@ def check_path(ex, cfg, status, ret, agg):
     # sequence numbers increase with file time within the session
     seqs = [(f['attrs'].get('sequence_num'), f['window']) for f in data_files if 'sequence_num' in f['attrs'] and f['window'] is not None]
     sq = []
+    seq_base = data_files[0]['attrs']['sequence_num'] if data_files and data_files[0].get('pre') else 0
     for i, (s_, w_) in enumerate(seqs):
-        sq.append(s_ == i)
+        sq.append(s_ == seq_base + i)
         if i > 0: sq.append(seqs[i - 1][1]['c2'] <= w_['c1'])
     check_claim(ex, agg, 'sequence_num counts files 0,1,2,... and files are created in increasing time order', z3.And(*sq) if sq else True)
     # no index reachable twice: windows of distinct files are disjoint
